@@ -22,13 +22,13 @@ PID = 'C08'
 LEVEL = 'exploration'
 RULE = ('6 supervised learners x parameters (n_constraints in {None,10,40}; n_chunks x chunk_size; k_genuine x k_impostor x basis; '
         'prior incl. random and an SPD array) x seeds {0,1,2} x label layouts {no unknown, unknown first / middle / last, two unknown, '
-        'unbalanced, renamed non-contiguous classes without / with an unknown, two same-class points at the same position} x datasets; signature = (learner, parameters, layout, dataset, '
+        'unbalanced, renamed non-contiguous classes without / with an unknown, two same-class points at the same position, two different negative markers, a class with two labeled members} x datasets; signature = (learner, parameters, layout, dataset, '
         '#constraints consumed); non-trivial = at least one constraint consumed')
 ASSUMPTIONS = ['The default n_constraints (None) is compared only on layouts without unknown labels (the documented '
                '"20 * num_classes^2" does not say whether the unknown label counts as a class).',
                "For SCML_Supervised(basis='lda') the generated basis is captured and handed to the base learner as an array; "
                'oracle (c) is not applied to that configuration (the basis generation reads all points).']
-LAYOUTS = ['none', 'first', 'middle', 'last', 'two', 'unbalanced', 'renamed', 'renamed_unknown', 'dup_rows']
+LAYOUTS = ['none', 'first', 'middle', 'last', 'two', 'unbalanced', 'renamed', 'renamed_unknown', 'dup_rows', 'two_markers', 'tiny_class']
 DUP_LEARNERS = ('ITML_Supervised', 'MMC_Supervised', 'SDML_Supervised', 'LSML_Supervised', 'RCA_Supervised')
 
 
@@ -53,6 +53,12 @@ def layout(ds, lay):
         idx = np.where(y == y.max())[0]
         if len(idx) > 4:
             y[idx[1]] = -1
+    elif lay == 'two_markers':
+        y[1] = -2                      # two different negative values: both mean "unlabeled"; the larger one is carried
+        y[[n // 2, n // 2 + 1, n - 2]] = -1      # by enough points to form a chunk / pairs if it were taken for a class
+    elif lay == 'tiny_class':
+        idx = np.where(y == y.max())[0]          # the last class keeps exactly two labeled members (k_genuine = 2 must be
+        y[idx[2:]] = -1                          # reduced for THIS class only)
     elif lay in ('renamed', 'renamed_unknown'):
         names = np.array([7, 3, 12, 5])          # class names that are neither contiguous nor ordered
         y = names[y]
